@@ -115,9 +115,103 @@ def c11_4(ctx):
     _refcheck(ctx, B58, "a2b_base58", "b58_a2b", "a2b-bases")
 
 
+# ------------------------------------------------------------------ C11.5
+def c11_5(ctx):
+    """necessary conditions of exactness that are visible in the shape of the codecs, each phrased over the functions' inputs"""
+    # (a) from_long emits a digit only for a value that is still positive (the zero value has no digits of its own: its text is
+    #     the leading-zero prefix alone); a do-while form emits one digit too many for 0
+    f = ctx.func(BC, "from_long")
+    w = sym.walk(ctx, f)
+    charset = f.params()[3] if len(f.params()) > 3 else "charset"
+    digits = [e for e in w.effects if e.kind == "call" and e.loops and ".append(" in e.text() and ("%s(" % charset) in e.text()]
+    if not digits:
+        ctx.undecided("digits-only-while-positive", ctx.where(f), "from_long: no `append(charset(..))` inside a loop; this rule reads the digit loop only")
+    import re as _re
+    for e in digits:
+        m = _re.search(r"\((\w+) % ", e.text())
+        x = m.group(1) if m else None
+        if e.reach is True:
+            ctx.bad("digits-only-while-positive", ctx.where(f, e.node), "from_long emits a digit before it has tested the value (`%s` is reached unconditionally in the loop): zero, i.e. an empty or all-zero byte string, gets one digit too many" % e.text()[:60])
+        elif x is not None and (sym.entails(e.reach, ("op", "0 < %s" % x)) or sym.entails(e.reach, ("not", ("op", "0 == %s" % x)))):
+            ctx.ok("digits-only-while-positive", sample={"digit": e.text()[:60], "emitted_when": str(e.reach)[:60]})
+        else:
+            ctx.undecided("digits-only-while-positive", ctx.where(f, e.node), "from_long emits digits under `%s`; this rule reads `value > 0` loops" % str(e.reach)[:80])
+    # (b) the character lookup of the base58 decoder must FAIL on a character outside the alphabet (to_long turns the failure
+    #     into EncodingError); a lookup that answers -1 / None decodes garbage
+    a2b = ctx.func(B58, "a2b_base58")
+    wa = sym.walk(ctx, a2b)
+    calls = sym.calls_matching(wa, lambda t: t == "to_long" or t.endswith(".to_long"))
+    if not calls:
+        ctx.undecided("lookup-raises", ctx.where(a2b), "a2b_base58 does not call to_long")
+    for e in calls:
+        lk = e.call.args[1] if len(e.call.args) > 1 else None
+        t = norm(lk) if lk is not None else ""
+        body = lk.body if isinstance(lk, ast.Lambda) else None
+        if (body is not None and isinstance(body, ast.Subscript)) or t.endswith((".__getitem__", ".index")):
+            ctx.ok("lookup-raises", sample={"lookup": t[:80]})
+        elif t.endswith((".find", ".rfind", ".get")) or (body is not None and isinstance(body, ast.Call) and isinstance(body.func, ast.Attribute) and body.func.attr in ("find", "rfind", "get")):
+            ctx.bad("lookup-raises", ctx.where(a2b, e.node), "a2b_base58 looks characters up with `%s`, which answers -1 / None for a character outside the alphabet instead of failing: such strings decode to bytes" % t[:60])
+        else:
+            ctx.undecided("lookup-raises", ctx.where(a2b, e.node), "a2b_base58 looks characters up with `%s`; this rule reads subscript / index / find / get lookups" % t[:60])
+    # (c) 5-bit groups become bytes through convertbits(.., 5, 8, False) only: it is the one place that enforces the padding rule
+    for rel, fn in ((PSTR, "parse_bech32_or_32m"), (BECH, "decode")):
+        g = ctx.func(rel, fn)
+        wg = sym.walk(ctx, g)
+        cb = sym.calls_matching(wg, lambda t: t == "convertbits" or t.endswith(".convertbits"))
+        strict = [e for e in cb if len(e.call.args) >= 4 and [df.const_int(a) for a in e.call.args[1:3]] == [5, 8] and isinstance(e.call.args[3], ast.Constant) and e.call.args[3].value is False]
+        if strict:
+            ctx.ok("regroup-through-convertbits:%s" % fn, sample={"function": fn, "call": strict[0].text()[:80]})
+        elif cb:
+            ctx.bad("regroup-through-convertbits:%s" % fn, ctx.where(g, cb[0].node), "%s regroups the data part with `%s`, not with convertbits(.., 5, 8, False): non-zero or over-long padding is no longer refused" % (fn, cb[0].text()[:80]))
+        else:
+            shifts = any(isinstance(n, ast.BinOp) and isinstance(n.op, (ast.LShift, ast.RShift)) for n in ast.walk(sym.expanded(ctx, g)))
+            if shifts:
+                ctx.bad("regroup-through-convertbits:%s" % fn, ctx.where(g), "%s regroups the 5-bit symbols with its own shifts and never calls convertbits(.., 5, 8, False), the one place that enforces the BIP173 padding rule" % fn)
+            else:
+                ctx.undecided("regroup-through-convertbits:%s" % fn, ctx.where(g), "%s does not call convertbits; this rule does not see how the data part becomes bytes" % fn)
+    # (d) no case folding in front of the decoder, and inside it nothing is accepted before the mixed-case test
+    for rel, fn in ((PSTR, "parse_bech32_or_32m"), (PSTR, "parse_bech32"), (BECH, "decode")):
+        g = ctx.func(rel, fn)
+        fold = [n for n in ast.walk(sym.expanded(ctx, g)) if isinstance(n, ast.Call) and isinstance(n.func, ast.Attribute) and n.func.attr in ("lower", "upper", "casefold", "swapcase") and not n.args]
+        ctx.check(not fold, "no-case-folding-before-decode:%s" % fn, ctx.where(g, fold[0]) if fold else ctx.where(g),
+                  "%s folds the case of the text (`%s`) before bech32_decode has seen it: a mixed-case string becomes a valid one" % (fn, norm(fold[0])[:60] if fold else ""), sample={"function": fn, "case_folding_calls": 0})
+    bd = ctx.func(BECH, "bech32_decode")
+    wb = sym.walk(ctx, bd)
+    bp = bd.params()[0]
+    mixed = sorted(a for a in sym.all_atoms(wb) if ("%s.lower()" % bp) in a and ("%s.upper()" % bp) not in a and " == " in a) + \
+        sorted(a for a in sym.all_atoms(wb) if ("%s.upper()" % bp) in a and ("%s.lower()" % bp) not in a and " == " in a)
+    acc = [e for e in wb.exits if e.kind == "return" and e.value is not None and not _none_ret(e)]
+    if len(mixed) < 2 or not acc:
+        ctx.undecided("accepted-only-after-case-test", ctx.where(bd), "bech32_decode: mixed-case test not found as `bech.lower() == bech` / `bech.upper() == bech` comparisons (atoms %s)" % mixed[:2])
+    else:
+        one_case = gi.f_or(("op", mixed[0]), ("op", mixed[1]))
+        for e in acc:
+            if sym.entails(e.cond, one_case):
+                ctx.ok("accepted-only-after-case-test", sample={"accepting_exit": norm(e.value)[:60], "entails": "all lower or all upper"})
+            elif any(isinstance(n, ast.Call) and isinstance(n.func, ast.Attribute) and n.func.attr in ("get", "__getitem__") for n in ast.walk(wb.sub(e.value))) or "lower()" in norm(wb.sub(e.value)) or \
+                    any(".lower()" in a and a not in mixed for a in (gi.f_opaques(e.cond) if e.cond not in (True, False) else []) if isinstance(a, str)):
+                ctx.bad("accepted-only-after-case-test", ctx.where(bd, e.node), "bech32_decode returns a decoded value (`%s`) on a path that has not tested the string for mixed case, found through its case-folded form: a mixed-case spelling of a string decoded before is accepted"
+                        % norm(e.value)[:60])
+            else:
+                ctx.undecided("accepted-only-after-case-test", ctx.where(bd, e.node), "bech32_decode accepts under `%s`, which does not show the case test" % str(e.cond)[:100])
+    # (e) the encoder refuses no triple the decoder accepts: what it refuses on the program length / version alone lies outside
+    #     2..40 / 0..16
+    en = ctx.func(BECH, "encode")
+    pr = en.params()
+    if len(pr) >= 3:
+        for subj, legal, key in (("len(%s)" % pr[2], iv(2, 40), "encoder-accepts-legal-lengths"), (pr[1], iv(0, 16), "encoder-accepts-legal-versions")):
+            we = sym.int_walk(ctx, en, {subj})
+            fr = sym.exits_formula(we, lambda e: _none_ret(e) or e.kind == "raise")
+            s_ = sym.must_set(fr, U, E) if fr is not False and gi.involves_subject(fr) else E
+            ctx.check((s_ & legal).is_empty(), key, ctx.where(en), "bech32m.encode refuses %s in %s on its own, which includes legal values (%s): encode returns None for an address decode accepts" % (subj, s_.fmt(), (s_ & legal).fmt()),
+                      sample={"subject": subj, "refused_on_its_own": s_.fmt()})
+
+
 OBLIGATIONS = [
     Ob("C11.1", "alphabets, BCH generator and checksum constants equal the standards", c11_1, floor=10, engines="TB,CE"),
     Ob("C11.2", "segwit-address decode decision guards (version, length, spec, characters, case, separator, length limit)", c11_2, floor=6, engines="SYM,GI", breaks_if="HRPs/strings without letters; version/constant mismatches"),
     Ob("C11.3", "payload returned only after the 4-byte checksum comparison (equality, not prefix)", c11_3, floor=8, engines="SYM", breaks_if="strings decoding to fewer than 4 bytes"),
     Ob("C11.4", "leading-zero bookkeeping of the radix conversion", c11_4, floor=4, engines="SYM", breaks_if="empty / all-zero byte strings"),
+    Ob("C11.5", "exactness clauses over the codecs' inputs: digits only while the value is positive, failing character lookup, regrouping through convertbits, case rule before acceptance, encoder refuses nothing legal", c11_5, floor=9, engines="SYM,GI",
+       breaks_if="zero / all-zero payloads; characters outside the alphabet; non-zero padding bits; mixed-case strings; 40-byte programs"),
 ]
